@@ -108,6 +108,7 @@ pub async fn run_suite(suite: &str, seed: u64, cases: usize) -> (String, String)
             "apply" => gen_apply(&mut sim, &mut crng, &mut stats, &name).await,
             "catchup" => gen_catchup(&mut sim, &mut crng, &mut stats, &name).await,
             "kf1" => gen_kf1(&mut sim, &mut crng, &mut stats, &name).await,
+            "conv" => gen_conv(&mut sim, &mut crng, &mut stats, &name).await,
             other => panic!("unknown suite {other}"),
         }
         stats.bump("cases");
@@ -1411,4 +1412,229 @@ async fn gen_kf1(sim: &mut Sim, rng: &mut Prng, stats: &mut Stats, name: &str) {
         stats.bump("kf1_relayed");
     }
     stats.bump("kf1_histories");
+}
+
+
+// ------------------------------------------------------------------------------------------
+// S-conv (C01): an arbitrary history (writes, deletes, TTL, GC, clock, lost / duplicated /
+// reordered messages, partial handshakes, late joins, MTU-forcing values, sometimes liveness
+// evaluation), then writes stop, the clock is frozen and fair rounds of loss-free complete
+// handshakes (every ordered pair once per round) run until the implementation has converged.
+fn marked_handshake(sim: &mut Sim, a: usize, b: usize) {
+    sim.raw_record(&format!("HS {a} {b}"), "ok");
+    full_handshake(sim, a, b);
+    sim.raw_record(&format!("HSEND {a} {b}"), "ok");
+}
+
+fn impl_converged(sim: &Sim) -> bool {
+    let n = sim.nodes.len();
+    for a in 0..n {
+        for b in 0..n {
+            let owner = sim.nodes[b].chitchat.self_chitchat_id().clone();
+            let owner_max = sim.nodes[b].chitchat.node_state(&owner).map(|s| s.max_version()).unwrap_or(0);
+            let seen = sim.nodes[a].chitchat.node_state(&owner).map(|s| s.max_version());
+            match seen {
+                Some(m) if m == owner_max => {}
+                None if owner_max == 0 => {}
+                _ => return false,
+            }
+        }
+    }
+    true
+}
+
+fn impl_frontiers(sim: &Sim) -> Vec<(usize, String, u64, u64)> {
+    let mut v = Vec::new();
+    for (a, nd) in sim.nodes.iter().enumerate() {
+        for (id, st) in nd.chitchat.node_states() {
+            v.push((a, format!("{id:?}"), st.last_gc_version(), st.max_version()));
+        }
+    }
+    v.sort();
+    v
+}
+
+async fn gen_conv(sim: &mut Sim, rng: &mut Prng, stats: &mut Stats, name: &str) {
+    sim.start_case(name);
+    let n_nodes = rng.range(2, 5) as usize;
+    let kv_grace: u64 = 1_000_000;
+    let dead_grace: u64 = 3_906_250_000u64 * 64;
+    let big_mode = rng.chance(1, 5);
+    let eval_mode = rng.chance(1, 4);
+    let allow_mb = mb_keys_enabled();
+    let mut pool: Vec<Vec<u8>> = Vec::new();
+    let join = |sim: &mut Sim, rng: &mut Prng, i: usize| {
+        let mut spec = NodeSpec::simple(node_id(i, rng));
+        spec.kv_grace_ns = kv_grace;
+        spec.dead_grace_ns = dead_grace;
+        if rng.chance(1, 3) {
+            spec.initial = vec![("a".to_string(), "x".to_string())];
+        }
+        sim.join(spec)
+    };
+    let initial_nodes = if rng.chance(1, 3) { n_nodes - 1 } else { n_nodes };
+    for i in 0..initial_nodes {
+        join(sim, rng, i);
+    }
+    if big_mode {
+        stats.bump("conv_cases_big_values");
+    }
+    if eval_mode {
+        stats.bump("conv_cases_with_evaluation");
+    }
+    if big_mode && rng.chance(1, 2) {
+        // several datagrams' worth of state on one node: convergence needs several handshakes
+        let who = rng.below(sim.nodes.len() as u64) as usize;
+        for i in 0..rng.range(4, 9) {
+            let len = rng.range(15_000, 33_000) as usize;
+            let v = high_entropy_string(rng, len);
+            sim.set(who, &format!("big{i}"), &v);
+            stats.bump("op_set_big");
+        }
+    }
+    let nops = rng.range(8, 45);
+    for _ in 0..nops {
+        if sim.dead_case {
+            return;
+        }
+        let live_nodes = sim.nodes.len();
+        let n = rng.below(live_nodes as u64) as usize;
+        match rng.below(100) {
+            0..=17 => {
+                let k = pick_key(rng, allow_mb);
+                if big_mode && rng.chance(2, 3) {
+                    let len = rng.range(9_000, 33_000) as usize;
+                    let v = high_entropy_string(rng, len);
+                    sim.set(n, k, &v);
+                    stats.bump("op_set_big");
+                } else {
+                    sim.set(n, k, *rng.pick(VALUES));
+                    stats.bump("op_set");
+                }
+            }
+            18..=21 => {
+                sim.set_with_ttl(n, pick_key(rng, allow_mb), *rng.pick(VALUES));
+                stats.bump("op_set_ttl");
+            }
+            22..=30 => {
+                sim.delete(n, pick_key(rng, allow_mb));
+                stats.bump("op_delete");
+            }
+            31..=34 => {
+                sim.delete_after_ttl(n, pick_key(rng, allow_mb));
+                stats.bump("op_delete_ttl");
+            }
+            35..=44 => {
+                sim.gc(n);
+                stats.bump("op_gc");
+            }
+            45..=54 => {
+                let dt = if eval_mode {
+                    *rng.pick(&[kv_grace, 1_953_125u64 * 512, 1_953_125 * 512 * 3, dead_grace / 2 + 1])
+                } else {
+                    *rng.pick(&[0, 1, kv_grace - 1, kv_grace, kv_grace + 1])
+                };
+                sim.tick(dt).await;
+                stats.bump("op_tick");
+            }
+            55..=62 => {
+                if let Some(b) = sim.syn(n) {
+                    pool.push(b);
+                }
+                stats.bump("op_syn_lost_or_delayed");
+            }
+            63..=76 => {
+                if !pool.is_empty() {
+                    let i = rng.below(pool.len() as u64) as usize;
+                    let msg = pool[i].clone();
+                    if let Some(reply) = sim.deliver(n, &msg) {
+                        if rng.chance(2, 3) {
+                            pool.push(reply);
+                        }
+                    }
+                    stats.bump("op_deliver_any");
+                }
+            }
+            77..=90 => {
+                let m = rng.below(live_nodes as u64) as usize;
+                if m != n {
+                    stats.bump("op_handshake");
+                    full_handshake(sim, n, m);
+                }
+            }
+            91..=94 => {
+                if eval_mode {
+                    sim.eval(n);
+                    stats.bump("op_eval");
+                }
+            }
+            95..=96 => {
+                sim.heartbeat(n);
+                stats.bump("op_heartbeat");
+            }
+            _ => {
+                if sim.nodes.len() < n_nodes {
+                    let i = sim.nodes.len();
+                    join(sim, rng, i);
+                    stats.bump("op_join_late");
+                }
+            }
+        }
+        while pool.len() > 16 {
+            let i = rng.below(pool.len() as u64) as usize;
+            pool.swap_remove(i);
+        }
+    }
+    if sim.dead_case {
+        return;
+    }
+    // writes stop, nothing is lost any more
+    let n = sim.nodes.len();
+    sim.raw_record("ROUND 0", "ok");
+    let mut rounds = 0u64;
+    let cap = 25u64;
+    let mut extra = 1;
+    let mut last_frontiers = impl_frontiers(sim);
+    while rounds < cap {
+        // a fair round: every ordered pair completes one handshake, in a random order
+        let mut pairs: Vec<(usize, usize)> = Vec::new();
+        for a in 0..n {
+            for b in 0..n {
+                if a != b {
+                    pairs.push((a, b));
+                }
+            }
+        }
+        for i in (1..pairs.len()).rev() {
+            let j = rng.below(i as u64 + 1) as usize;
+            pairs.swap(i, j);
+        }
+        for (a, b) in pairs {
+            marked_handshake(sim, a, b);
+            if sim.dead_case {
+                return;
+            }
+        }
+        rounds += 1;
+        sim.raw_record(&format!("ROUND {rounds}"), "ok");
+        let fr = impl_frontiers(sim);
+        let stuck = fr == last_frontiers;
+        last_frontiers = fr;
+        if stuck && !impl_converged(sim) {
+            // the monitor reports this round; more rounds would only repeat it
+            stats.bump("conv_cases_stuck");
+            break;
+        }
+        if impl_converged(sim) {
+            if extra == 0 {
+                break;
+            }
+            extra -= 1;
+        }
+    }
+    stats.add("conv_rounds", rounds);
+    if rounds >= cap {
+        stats.bump("conv_cases_hit_round_cap");
+    }
+    sim.raw_record(&format!("ROUNDSEND {rounds}"), "ok");
 }
